@@ -8,6 +8,8 @@ import (
 	"fmt"
 	"sort"
 	"strings"
+	"sync/atomic"
+	"unsafe"
 
 	"github.com/filecoin-project/go-f3/certstore"
 	"github.com/filecoin-project/go-f3/ec"
@@ -36,8 +38,10 @@ func (v *VerifInputs) GetCommittee(ctx context.Context, instance uint64) (*gpbft
 
 // ---- C12: the broadcast path (filter -> WAL -> publish) and its restart behaviour ---------------------------
 
-// VerifRunner wraps the production gpbftRunner built by newRunner over a real WAL directory; only the
-// outbound path is exercised (BroadcastMessage / RequestRebroadcast / Stop), the participant is never started.
+// VerifRunner wraps the production gpbftRunner built by newRunner over a real WAL directory and started with
+// the production Start (so the certificate-driven goroutines — skip-forward and finalize/purge — are the real
+// ones). The clock in ctx is a mock that never advances: the participant never begins an instance by itself,
+// the harness alone decides what is broadcast (BroadcastMessage / RequestRebroadcast / Stop).
 type VerifRunner struct{ r *gpbftRunner }
 
 func VerifNewRunner(ctx context.Context, cs *certstore.Store, e ec.Backend, ps *pubsub.PubSub, v gpbft.Verifier,
@@ -51,11 +55,12 @@ func VerifNewRunner(ctx context.Context, cs *certstore.Store, e ec.Backend, ps *
 	if err != nil {
 		return nil, err
 	}
-	if err := r.setupPubsub(); err != nil {
+	if err := r.Start(ctx); err != nil {
 		return nil, err
 	}
 	// Inbound validation is not under test here: the harness observes the wire through a default
-	// validator of its own, so the runner's topic validator (which needs a started participant) is removed.
+	// validator of its own, so the runner's topic validator (which would reject the harness's messages for
+	// instances the idle participant is not in) is removed.
 	_ = ps.UnregisterTopicValidator(m.PubSubTopic())
 	return &VerifRunner{r: r}, nil
 }
@@ -101,22 +106,18 @@ type VerifEquivFilter struct{ f equivocationFilter }
 func VerifNewEquivFilter(pid peer.ID) *VerifEquivFilter {
 	return &VerifEquivFilter{f: newEquivocationFilter(pid)}
 }
-func (v *VerifEquivFilter) ProcessBroadcast(m *gpbft.GMessage) bool { return v.f.ProcessBroadcast(m) }
+func (v *VerifEquivFilter) ProcessBroadcast(m *gpbft.GMessage) bool     { return v.f.ProcessBroadcast(m) }
 func (v *VerifEquivFilter) ProcessReceive(p peer.ID, m *gpbft.GMessage) { v.f.ProcessReceive(p, m) }
 
-// Finalized models the arrival of the finality certificate for `instance` at the runner's finalize
-// goroutine (host.go, Start): the WAL is purged below instance-5 and the rebroadcast store is trimmed.
-// The purge itself is the production WriteAheadLog.Purge on the runner's own WAL handle.
-func (v *VerifRunner) Finalized(instance uint64) {
-	const keepInstancesInWAL = 5
-	if instance > keepInstancesInWAL {
-		_ = v.r.wal.Purge(instance - keepInstancesInWAL)
-	}
-	v.r.msgsMutex.Lock()
-	for i := range v.r.selfMessages {
-		if i < instance {
-			delete(v.r.selfMessages, i)
-		}
-	}
-	v.r.msgsMutex.Unlock()
+// LockMsgs / UnlockMsgs / MsgsWaiters let the harness make the asynchronous finalize goroutine's progress
+// observable without touching it: the harness holds msgsMutex while the goroutine runs its purge; the goroutine
+// then queues on the mutex (its next step is the rebroadcast-store trim), which the waiter count shows.
+func (v *VerifRunner) LockMsgs()   { v.r.msgsMutex.Lock() }
+func (v *VerifRunner) UnlockMsgs() { v.r.msgsMutex.Unlock() }
+
+// MsgsWaiters returns (queued waiters, a woken-or-spinning locker exists) of msgsMutex; sync.Mutex keeps both
+// in its first word (state int32: bit0 locked, bit1 woken, bit2 starving, waiters from bit 3).
+func (v *VerifRunner) MsgsWaiters() (int, bool) {
+	st := atomic.LoadInt32((*int32)(unsafe.Pointer(&v.r.msgsMutex)))
+	return int(st >> 3), st&2 != 0
 }
